@@ -116,6 +116,14 @@ def programs(ctx: Ctx, cap1: bool) -> list[tuple[str, prog.Call]]:
             calls.append(("exch-step-raise", prog.Call("exch", {"steps": [[X], [*ls, ["raise", "ValueError", "xr"]]]}, inputs=[[1], [2]])))
             calls.append(("exch-echo-then-log", prog.Call("exch", {"steps": [[X, *ls], [*ls, X, *ls]]}, inputs=[[1], [2]])))
             calls.append(("exch-echo-then-log-hdr", prog.Call("exch_h", {"hdr": 3, "steps": [[X, *ls]]}, inputs=[[1]])))
+            # step 1 logs and completes; the INPUT of step 2 is refused before process() runs (2.5 cannot become int64):
+            # the logs of step 1 were delivered with step 1 and must not be delivered again with the refusal
+            # (both inputs travel as float64, so a socket client can send them on one IPC stream: 2.0 is cast, 2.5 is refused)
+            calls.append(("exch-log-then-bad-input", prog.Call(
+                "exch", {"steps": [[*ls, X], [X]]}, inputs=[{"cols": {"x": [2.0]}, "expect_x": [2]}, {"cols": {"x": [2.5]}, "expect_x": None}])))
+            calls.append(("exch-2log-then-bad-input", prog.Call(
+                "exch", {"steps": [[X], [*ls, X], [X]]},
+                inputs=[{"cols": {"x": [1.0]}, "expect_x": [1]}, {"cols": {"x": [2.0]}, "expect_x": [2]}, {"cols": {"x": [2.5]}, "expect_x": None}])))
     return calls
 
 
